@@ -341,6 +341,83 @@ func C10(c *run.Ctx) {
 		}
 	}
 	c.Sample(map[string]interface{}{"registrations": len(regs), "transports": len(trs), "secret_relations": rels, "endpoints": endpoints})
+	c10UsedAssertions(c)
+}
+
+// c10UsedAssertions: for a private_key_jwt client a client assertion is a one-time proof. Once it has been accepted at any
+// client-authenticated endpoint it is no credential at any of them, whatever other assertions (with earlier or later expiries)
+// the server has seen in between; a request carrying it is rejected and changes nothing.
+func c10UsedAssertions(c *run.Ctx) {
+	if !c.Mine(3) && c.NShards > 3 {
+		return
+	}
+	keys := world.GetKeys()
+	eps := []string{"token", "revoke", "par", "device", "introspect"}
+	lifetimes := [][]time.Duration{{time.Minute, time.Hour, 30 * time.Second}, {time.Hour, time.Minute, 2 * time.Hour}, {5 * time.Minute, 5 * time.Minute, 5 * time.Minute}}
+	for li, lt := range lifetimes {
+		for first := range eps {
+			w := world.New(world.Opts{JWTAccess: (li+first)%2 == 1})
+			w.AddClient(world.ClientSpec{ID: "pk", Kind: "oidc", AuthMethod: "private_key_jwt", AuthSigAlg: "RS256", JWKS: world.PublicJWKS(nil, &keys.ClientRSA[0].PublicKey), RedirectURIs: []string{"https://pk.example/cb"},
+				GrantTypes: world.AllGrants, ResponseTypes: world.AllResponseTypes, Scopes: []string{"openid", "offline", "fosite"}})
+			mk := func(life time.Duration) string {
+				now := time.Now()
+				return world.SignJWT(keys.ClientRSA[0], "RS256", map[string]interface{}{"kid": "k0"}, map[string]interface{}{"iss": "pk", "sub": "pk", "aud": world.TokenURL,
+					"exp": now.Add(life).Unix(), "iat": now.Unix(), "jti": nextJTI("c10used")})
+			}
+			victim := w.Token(url.Values{"grant_type": {"client_credentials"}, "scope": {"fosite"}}, world.Auth{Mode: "none", Assertion: mk(time.Hour)}).S("access_token")
+			do := func(ep, as string) *world.Out {
+				au := world.Auth{Mode: "none", Assertion: as}
+				switch ep {
+				case "token":
+					return w.Token(url.Values{"grant_type": {"client_credentials"}, "scope": {"fosite"}}, au)
+				case "revoke":
+					return w.Revoke(url.Values{"token": {victim}}, au)
+				case "par":
+					return w.PAR(url.Values{"response_type": {"code"}, "scope": {"fosite"}, "state": {"state-0123456789"}, "redirect_uri": {"https://pk.example/cb"}}, au)
+				case "device":
+					return w.Device(url.Values{"scope": {"fosite"}, "client_id": {"pk"}}, au)
+				}
+				return w.IntrospectHTTP(url.Values{"token": {victim}}, au, "")
+			}
+			var used []string
+			var hist []string
+			for i, life := range lt {
+				as := mk(life)
+				ep := eps[(first+i)%len(eps)]
+				if ep == "revoke" {
+					ep = "token" // keep the victim token alive for the replays
+				}
+				out := do(ep, as)
+				hist = append(hist, fmt.Sprintf("fresh assertion (exp +%s) at %s => %s", life, ep, world.ErrDetail(out.Err)))
+				if out.Err == nil {
+					used = append(used, as)
+					c.Count("c10_processed", 1)
+				} else {
+					c.Count("c10_fresh_assertion_refused:"+ep+":"+out.ErrName, 1)
+				}
+			}
+			for ui, as := range used {
+				for _, ep := range eps {
+					before := w.Store.Digest()
+					out := do(ep, as)
+					c.Case(fmt.Sprintf("used-assertion lifetimes=%d endpoint=%s processed=%v err=%s", li, ep, out.Err == nil, out.ErrName))
+					c.Count("c10_rejected", 1)
+					c.Count("c10_used_assertion_replays", 1)
+					h := append(append([]string(nil), hist...), fmt.Sprintf("assertion #%d presented again at %s => %s", ui, ep, world.ErrDetail(out.Err)))
+					if out.Err == nil {
+						c.Violate(run.Violation{Kind: "unauthenticated-request-processed", Key: "unauthenticated-request-processed used-client-assertion endpoint=" + ep,
+							Detail: "a client assertion that had already been accepted once authenticated a request again", History: h})
+					}
+					if d := world.DigestDiff(before, w.Store.Digest()); len(d) > 0 && out.Err != nil {
+						c.Violate(run.Violation{Kind: "rejected-request-changed-state", Key: "rejected-request-changed-state used-client-assertion endpoint=" + ep, Detail: fmt.Sprint(d), History: h})
+					}
+				}
+			}
+			if !w.IntrospectAPI(victim, fosite.AccessToken).Active && len(used) > 0 {
+				c.Violate(run.Violation{Kind: "rejected-request-changed-state", Key: "rejected-request-changed-state used-client-assertion revoked a token", Detail: "the token named in the replayed revocation requests is no longer active", History: hist})
+			}
+		}
+	}
 }
 
 func clientAssertionFor(client string, key interface{}, kid string) string {
